@@ -7,11 +7,13 @@
    NOT covered by a theorem (S / K only, see harness/c19.py):
      * "given >= 20 attempts per sample the points extend to within two grid spacings of all four
        sides" — probabilistic (depends on the RNG), evaluated per grid shape on the implementation;
-     * termination of bluenoise (probabilistic);
+     * termination of bluenoise in full (probabilistic): only the measure is proved — at most 2 * max_samples - 1
+       iterations change the state, so the loop ends unless it keeps making NoChange iterations
+       (C19_bluenoise_terminates_partial, C19_bluenoise_nochange_cause);
      * that numpy's Generator is deterministic given its seed and that rng.uniform returns values in
        [0, 1) — the RNG is outside the model: its draws are the arbitrary streams / hypotheses below. *)
 From Coq Require Import List ZArith Bool Arith QArith String.
-From Koala Require Import Model.Points Model.RngIR Gen.RngUse Proofs.PointsFacts Proofs.RngUseFacts.
+From Koala Require Import Model.Points Model.PointsGrid Model.RngIR Gen.RngUse Proofs.PointsFacts Proofs.PointsGridFacts Proofs.RngUseFacts.
 Import ListNotations.
 Open Scope Z_scope.
 
@@ -111,3 +113,183 @@ Proof. vm_compute. reflexivity. Qed.
 Example C19_rng_use_nonvacuous :
   forallb draws_from_rng pointsets_functions = true /\ (3 <= List.length pointsets_functions)%nat.
 Proof. exact pointsets_draw_from_rng. Qed.
+
+(* ================================================================== deepening: grid bookkeeping, neighbour window,
+   counts / termination measure, hyperuniform's jittered grid (Model/PointsGrid.v, Proofs/PointsGridFacts.v).
+
+   READ THIS FIRST: today's bluenoise has NO neighbour window.  The acceptance test scans all samples
+   (pointsets.py:40; the TODO at :38-39 says so), the `cells` dictionary is written and never read, and its cell size
+   is 1 = r, not Bridson's r / sqrt 2.  So "the window the code scans contains every point closer than r" is
+   trivially true of the code (the window is everything).  What is proved here is (a) the window theorem for EVERY
+   grid-accelerated variant (any rational cell size (b/a) r, any half-width m with r <= m * cell size), end to end:
+   such a variant goes through exactly the states of the coded loop; (b) what the coded dictionary contains; and
+   (c) that the coded dictionary (one entry per cell of size r) can NOT serve as that window (refuted with witness). *)
+
+(* the classic Bridson invariant, all grid sizes (nx, ny do not occur), all points: a sample within r of the candidate
+   lies within +-m cells of it on both axes whenever r <= m * cell size (a <= m * b for cell size (b/a) r).
+   a = b = 1 (the code's cells): m = 1, the 3 x 3 block.  r/2 <= cell <= r/sqrt 2, e.g. a = 3, b = 2: m = 2, 5 x 5. *)
+Theorem C19_window_contains_all_within_r : forall (a b sc m : Z) (p s : pt),
+  0 < sc -> 0 < a -> 0 < b -> a <= m * b ->
+  d2 p s <= sc * sc -> in_window a b sc m p s = true.
+Proof. exact window_complete. Qed.
+Print Assumptions C19_window_contains_all_within_r.
+
+Theorem C19_windowed_test_is_full_test : forall (a b sc m : Z) (samples : list pt) (p : pt),
+  0 < sc -> 0 < a -> 0 < b -> a <= m * b ->
+  far_from_window a b sc m samples p = far_from_all sc samples p.
+Proof. exact far_from_window_eq. Qed.
+Print Assumptions C19_windowed_test_is_full_test.
+
+(* Bridson's other half: cell size <= r / sqrt 2 (2 b^2 <= a^2) => two points of one cell are closer than r, so a
+   cell holds at most one sample *)
+Theorem C19_same_cell_closer_than_r : forall (a b sc : Z) (p s : pt),
+  0 < sc -> 0 < a -> 0 < b -> 2 * b * b <= a * a ->
+  cellq a b sc p = cellq a b sc s -> d2 p s < sc * sc.
+Proof. exact same_cell_close. Qed.
+Print Assumptions C19_same_cell_closer_than_r.
+
+(* end to end: the loop with the windowed test = the coded loop (same states, same outcomes), every stream, every grid *)
+Theorem C19_bluenoise_windowed_run_is_coded_run : forall (a b m sc nx ny : Z) (k : nat) (st : state) (its : list (nat * list pt)),
+  0 < sc -> 0 < a -> 0 < b -> a <= m * b ->
+  run_trace_window a b m sc nx ny k st its = run_trace sc nx ny k st its.
+Proof. exact run_trace_window_eq. Qed.
+Print Assumptions C19_bluenoise_windowed_run_is_coded_run.
+
+Theorem C19_bluenoise_windowed_spacing : forall (a b m sc nx ny : Z) (k : nat) (x0 : pt) (its : list (nat * list pt)) (st : state) (os : list outcome),
+  0 < sc -> 0 < a -> 0 < b -> a <= m * b ->
+  run_trace_window a b m sc nx ny k (init x0) its = Some (st, os) ->
+  forall (i j : nat) (p q : pt), i <> j -> nth_error (samples st) i = Some p -> nth_error (samples st) j = Some q -> sc * sc < d2 p q.
+Proof. exact bluenoise_window_spacing. Qed.
+Print Assumptions C19_bluenoise_windowed_spacing.
+
+(* the write-only dictionary as coded: an integer entry j under a key <=> sample j is the LAST sample in that cell *)
+Theorem C19_cells_hold_last_sample_of_cell : forall (sc nx ny : Z) (samples : list pt),
+  (forall key j, dict_get (cells_after sc nx ny samples) key = Some (Some j) ->
+     exists p, nth_error samples j = Some p /\ point_to_coord sc p = key /\
+       forall j' q, (j < j')%nat -> nth_error samples j' = Some q -> point_to_coord sc q <> key) /\
+  (forall i p, nth_error samples i = Some p ->
+     exists j, dict_get (cells_after sc nx ny samples) (point_to_coord sc p) = Some (Some j) /\ (i <= j)%nat).
+Proof. exact cells_after_spec. Qed.
+Print Assumptions C19_cells_hold_last_sample_of_cell.
+
+(* "the coded dictionary supports the neighbour-window test": false (cell size r lets two samples share a cell) *)
+Theorem C19_cells_window_test_sound_refuted :
+  exists sc nx ny k x0 its st p,
+    run sc nx ny k (init x0) its = Some st /\ out_of_domain sc nx ny p = false /\
+    far_from_cells sc 2 (cells_after sc nx ny (samples st)) (samples st) p = true /\
+    far_from_all sc (samples st) p = false /\
+    (exists i j a b, i <> j /\ nth_error (samples st) i = Some a /\ nth_error (samples st) j = Some b /\
+                     point_to_coord sc a = point_to_coord sc b).
+Proof. exact cells_window_test_sound_refuted. Qed.
+Print Assumptions C19_cells_window_test_sound_refuted.
+
+(* ------------------------------------------------------------------ counts and termination measure *)
+(* number of returned points, every stream, every grid: between 1 and (3nx/2 + 1)(3ny/2 + 1) (packing: cells of side
+   2r/3 hold at most one sample) *)
+Theorem C19_bluenoise_count_bounded : forall (sc nx ny : Z) (k : nat) (x0 : pt) (its : list (nat * list pt)) (st : state),
+  0 < sc -> 0 <= nx -> 0 <= ny -> (0 <= fst x0 <= sc * nx /\ 0 <= snd x0 <= sc * ny) ->
+  run sc nx ny k (init x0) its = Some st ->
+  1 <= Z.of_nat (List.length (samples st)) <= max_samples nx ny.
+Proof. exact bluenoise_count_bounded. Qed.
+Print Assumptions C19_bluenoise_count_bounded.
+
+(* #points = 1 + #Accept;  |active| = #points - #Remove;  the loop has ended iff #Remove = #points *)
+Theorem C19_bluenoise_counts : forall (sc nx ny : Z) (k : nat) (x0 : pt) (its : list (nat * list pt)) (st : state) (os : list outcome),
+  run_trace sc nx ny k (init x0) its = Some (st, os) ->
+  List.length (samples st) = S (count_out is_accept os) /\
+  (List.length (active st) + count_out is_remove os = List.length (samples st))%nat /\
+  (finished st = true <-> count_out is_remove os = List.length (samples st)).
+Proof. exact bluenoise_counts. Qed.
+Print Assumptions C19_bluenoise_counts.
+
+(* termination measure: at most 2 * max_samples - 1 iterations change the state, over ANY stream *)
+Theorem C19_bluenoise_effective_iterations_bounded : forall (sc nx ny : Z) (k : nat) (x0 : pt) (its : list (nat * list pt)) (st : state) (os : list outcome),
+  0 < sc -> 0 <= nx -> 0 <= ny -> (0 <= fst x0 <= sc * nx /\ 0 <= snd x0 <= sc * ny) ->
+  run_trace sc nx ny k (init x0) its = Some (st, os) ->
+  Z.of_nat (count_out is_accept os + count_out is_remove os) <= 2 * max_samples nx ny - 1.
+Proof. exact bluenoise_effective_iterations_bounded. Qed.
+Print Assumptions C19_bluenoise_effective_iterations_bounded.
+
+(* PARTIAL termination: the while loop cannot run longer than 2 * max_samples - 1 iterations unless it makes NoChange
+   iterations.  Missing for full termination: NoChange iterations do occur (see the next theorem and
+   C19_bluenoise_returns_on_unit_grid_refuted); that they are finitely many is a probabilistic fact about the RNG. *)
+Theorem C19_bluenoise_terminates_partial : forall (sc nx ny : Z) (k : nat) (x0 : pt) (its : list (nat * list pt)) (st : state) (os : list outcome),
+  0 < sc -> 0 <= nx -> 0 <= ny -> (0 <= fst x0 <= sc * nx /\ 0 <= snd x0 <= sc * ny) ->
+  run_trace sc nx ny k (init x0) its = Some (st, os) ->
+  count_out is_nochange os = 0%nat ->
+  Z.of_nat (List.length its) <= 2 * max_samples nx ny - 1.
+Proof. exact bluenoise_terminates_without_nochange. Qed.
+Print Assumptions C19_bluenoise_terminates_partial.
+
+(* a NoChange iteration has exactly one cause in a run of the code (k >= 1, k candidates available): the LAST candidate
+   is outside the domain, so pointsets.py:37 `continue` skips the `elif i == k - 1: active_cells.remove(idx)` *)
+Theorem C19_bluenoise_nochange_cause : forall (sc nx ny : Z) (ss : list pt) (k i : nat) (cands : list pt),
+  inner sc nx ny ss i k cands = NoChange ->
+  k = O \/ (List.length cands < k)%nat \/
+  exists c, nth_error cands (k - 1) = Some c /\ out_of_domain sc nx ny c = true.
+Proof. exact inner_nochange. Qed.
+Print Assumptions C19_bluenoise_nochange_cause.
+
+(* ------------------------------------------------------------------ hyperuniform's jittered grid as coded *)
+Theorem C19_hyperuniform_grid_count : forall (sc : Z) (nx ny : nat) (offs kicks : nat -> pt),
+  List.length (hu_final sc nx ny offs kicks) = (ny * nx)%nat.
+Proof. exact hu_final_length. Qed.
+Print Assumptions C19_hyperuniform_grid_count.
+
+(* what the model's numerator / denominator stand for: the exact value of the code's expression
+   linspace(0,1,n)[i] + offset * (1/n) + kick  =  i/(n-1) + (o/sc)(1/n) + k/sc   (n >= 2) *)
+Theorem C19_hyperuniform_grid_exact_value : forall (sc : Z) (n i : nat) (o k : Z), 0 < sc -> (2 <= n)%nat ->
+  (Qmake (hu_num sc n i o k) (Z.to_pos (hu_den sc n)) ==
+   inject_Z (Z.of_nat i) / inject_Z (Z.of_nat n - 1)
+   + (inject_Z o / inject_Z sc) * (1 / inject_Z (Z.of_nat n)) + inject_Z k / inject_Z sc)%Q.
+Proof. exact hu_exact_value. Qed.
+Print Assumptions C19_hyperuniform_grid_exact_value.
+
+(* clause "every generated point lies in the unit square", now from the grid + offsets + kicks as coded *)
+Theorem C19_hyperuniform_full_in_unit_square : forall (sc : Z) (nx ny : nat) (offs kicks : nat -> pt) (q : Q * Q),
+  0 < sc -> (1 <= nx)%nat -> (1 <= ny)%nat ->
+  In q (map (hu_to_unit sc nx ny) (hyperuniform_full sc nx ny offs kicks)) ->
+  (0 < fst q < 1 /\ 0 < snd q < 1)%Q.
+Proof. exact hyperuniform_full_in_open_unit. Qed.
+Print Assumptions C19_hyperuniform_full_in_unit_square.
+
+(* OBSERVATION outside the property (reported to the lead): with kickstrength = 0 and offsets strictly inside (0, 1),
+   hyperuniform(nx, ny) returns exactly (nx-1)(ny-1) points, never nx * ny: the last row and column of origins sit on
+   the border (linspace includes 1) and are always cropped *)
+Theorem C19_hyperuniform_zero_kick_count : forall (sc : Z) (nx ny : nat) (offs kicks : nat -> pt),
+  0 < sc -> (2 <= nx)%nat -> (2 <= ny)%nat ->
+  (forall j, kicks j = (0, 0)) ->
+  (forall j, 0 < fst (offs j) < sc /\ 0 < snd (offs j) < sc) ->
+  List.length (hyperuniform_full sc nx ny offs kicks) = ((ny - 1) * (nx - 1))%nat.
+Proof. exact hyperuniform_zero_kick_count. Qed.
+Print Assumptions C19_hyperuniform_zero_kick_count.
+
+(* ------------------------------------------------------------------ non-vacuity of the new hypotheses *)
+(* cell size 2r/3: both Bridson conditions hold with the 5 x 5 block (m = 2); the code's cell size r: 3 x 3 (m = 1)
+   suffices for the window, but the one-per-cell condition 2 b^2 <= a^2 fails *)
+Example C19_window_hypotheses_nonvacuous :
+  (3 <= 2 * 2 /\ 2 * 2 * 2 <= 3 * 3) /\ (1 <= 1 * 1 /\ ~ (2 * 1 * 1 <= 1 * 1)) /\
+  in_window 3 2 100 2 (150, 150) (60, 220) = true /\ in_window 3 2 100 1 (150, 150) (60, 220) = false /\
+  d2 (150, 150) (60, 220) > 100 * 100 /\ in_window 1 1 100 1 (150, 150) (60, 220) = true.
+Proof. vm_compute. repeat split; try reflexivity; try discriminate. intro H; apply H; reflexivity. Qed.
+
+(* the run of C19_bluenoise_nonvacuous: 2 points <= max_samples 3 2 = 20; 1 Accept, 2 Remove, no NoChange, 3 iterations
+   <= 39; the windowed loop gives the same; the dictionary ends with cells[(0,0)] = 0, cells[(2,1)] = 1 *)
+Example C19_counts_nonvacuous :
+  let its := [ (0%nat, [ (20, 2) ; (9, 6) ]) ; (1%nat, [ (10, 7) ; (8, 5) ]) ; (0%nat, [ (2, 9) ; (5, 3) ]) ] in
+  exists st os, run_trace 4 3 2 2 (init (2, 2)) its = Some (st, os) /\
+    run_trace_window 3 2 2 4 3 2 2 (init (2, 2)) its = Some (st, os) /\
+    os = [Accept 1 (9, 6); Remove; Remove] /\ count_out is_nochange os = 0%nat /\ max_samples 3 2 = 20 /\
+    dict_get (cells_after 4 3 2 (samples st)) (0, 0) = Some (Some 0%nat) /\
+    dict_get (cells_after 4 3 2 (samples st)) (2, 1) = Some (Some 1%nat) /\
+    dict_get (cells_after 4 3 2 (samples st)) (1, 1) = Some None /\
+    List.length (cells_after 4 3 2 (samples st)) = 6%nat.
+Proof. vm_compute. do 2 eexists. repeat split; reflexivity. Qed.
+
+(* hyperuniform(3, 3), scale 8, offsets (1/2, 1/4) everywhere, no kicks: 9 grid points, the 4 = (3-1)(3-1) of the
+   first two rows / columns are returned; first point = (0 + (1/2)/3, 0 + (1/4)/3) = (8/48, 4/48) *)
+Example C19_hyperuniform_grid_nonvacuous :
+  List.length (hu_final 8 3 3 (fun _ => (4, 2)) (fun _ => (0, 0))) = 9%nat /\
+  hyperuniform_full 8 3 3 (fun _ => (4, 2)) (fun _ => (0, 0)) = [(8, 4); (32, 4); (8, 28); (32, 28)] /\
+  hu_den 8 3 = 48.
+Proof. vm_compute. repeat split; reflexivity. Qed.
